@@ -70,10 +70,19 @@ def set_array_name_format(value):
     _array_name_format = value
 
 
-_any_dtype = object()
+class _Sentinel(enum.Enum):
+    # Enum members are pickled and copied by reference, so that the identity
+    # comparisons below survive an annotation class being pickled by value (which is
+    # what e.g. cloudpickle does).
+    any_dtype = enum.auto()
+    anonymous_dim = enum.auto()
+    anonymous_variadic_dim = enum.auto()
 
-_anonymous_dim = object()
-_anonymous_variadic_dim = object()
+
+_any_dtype = _Sentinel.any_dtype
+
+_anonymous_dim = _Sentinel.anonymous_dim
+_anonymous_variadic_dim = _Sentinel.anonymous_variadic_dim
 
 
 class _DimType(enum.Enum):
